@@ -1144,3 +1144,236 @@ pub mod tests {
         assert!(ops.is_empty());
     }
 }
+
+/// Verification hook (compiled only with `--cfg nomt_verif`): the real [`BranchUpdater`] (and through it the
+/// real `BranchOpsTracker` / `BranchGauge` / `build_branch`) on caller-supplied base nodes built with the real
+/// [`BranchNodeBuilder`], with a [`HandleNewBranch`] collector that records the produced nodes (read back
+/// through the real `get_key` / `node_pointer` / cell accessors), the separators and cutoffs, and a read-only
+/// view of the private state (`ops`, the gauge, `valid_gauge`, `base.low`, `cutoff`). Nothing here is used by
+/// the store itself.
+#[cfg(nomt_verif)]
+pub mod verif {
+    use super::super::branch_ops::BranchOp;
+    use super::{
+        get_key, separator_len, BaseBranch, BranchNode, BranchNodeBuilder, BranchUpdater,
+        DigestResult, HandleNewBranch, Key, PageNumber, PagePool,
+    };
+    use std::sync::{Arc, OnceLock};
+
+    /// The constants the updater works with, for the harness's independent size oracle.
+    pub mod consts {
+        pub const BODY: usize = crate::beatree::branch::BRANCH_NODE_BODY_SIZE;
+        pub const MERGE: usize = super::super::super::BRANCH_MERGE_THRESHOLD;
+        pub const BULK_THRESHOLD: usize = super::super::super::BRANCH_BULK_SPLIT_THRESHOLD;
+        pub const BULK_TARGET: usize = super::super::super::BRANCH_BULK_SPLIT_TARGET;
+    }
+
+    fn pool() -> &'static PagePool {
+        static POOL: OnceLock<PagePool> = OnceLock::new();
+        POOL.get_or_init(PagePool::new)
+    }
+
+    /// A branch node read back through the real accessors: header fields, and per item the key
+    /// (`get_key`), the node pointer and the stored bit length of its separator (difference of cells);
+    /// `body_size` = `2n + ceil((prefix_len + last cell) / 8) + 4n`, the bytes the encoding occupies.
+    #[derive(Debug, Clone, PartialEq, Eq)]
+    pub struct NodeView {
+        pub bbn_pn: u32,
+        pub n: usize,
+        pub prefix_compressed: usize,
+        pub prefix_len: usize,
+        pub items: Vec<(Key, u32, usize)>,
+        pub body_size: usize,
+    }
+
+    pub fn view_of(node: &BranchNode) -> NodeView {
+        let n = node.n() as usize;
+        let mut items = Vec::with_capacity(n);
+        let mut prev = 0usize;
+        for i in 0..n {
+            let cell = node.view().cell(i);
+            items.push((get_key(node, i), node.node_pointer(i), cell.wrapping_sub(prev)));
+            prev = cell;
+        }
+        let prefix_len = node.prefix_len() as usize;
+        NodeView {
+            bbn_pn: node.bbn_pn(),
+            n,
+            prefix_compressed: node.prefix_compressed() as usize,
+            prefix_len,
+            items,
+            body_size: n * 2 + (prefix_len + prev + 7) / 8 + n * 4,
+        }
+    }
+
+    /// A node that can be handed back as a base (of this or of a later round).
+    #[derive(Clone)]
+    pub struct NodeHandle(pub(crate) Arc<BranchNode>);
+
+    impl NodeHandle {
+        pub fn view(&self) -> NodeView {
+            view_of(&self.0)
+        }
+        pub fn page(&self) -> Vec<u8> {
+            self.0.as_slice().to_vec()
+        }
+        /// Is this the very same node (the same `Arc`)?
+        pub fn ptr_eq(&self, other: &NodeHandle) -> bool {
+            Arc::ptr_eq(&self.0, &other.0)
+        }
+    }
+
+    /// `BranchNodeBuilder::new(node, n, prefix_compressed, prefix_len)` + `push(key, separator_len(key), pn)` × n
+    /// + `finish`, then `set_bbn_pn` — what `make_raw_branch` of the unit tests does, with the two prefix
+    /// parameters chosen by the caller.
+    pub fn make_node(
+        items: &[(Key, u32)],
+        prefix_compressed: usize,
+        prefix_len: usize,
+        bbn_pn: u32,
+    ) -> NodeHandle {
+        let branch = BranchNode::new_in(pool());
+        let mut builder = BranchNodeBuilder::new(branch, items.len(), prefix_compressed, prefix_len);
+        for (k, pn) in items {
+            builder.push(*k, separator_len(k), *pn);
+        }
+        let mut node = builder.finish();
+        node.set_bbn_pn(bbn_pn);
+        NodeHandle(Arc::new(node))
+    }
+
+    /// One call of `handle_new_branch`: separator, the node, cutoff.
+    pub type Produced = (Key, NodeHandle, Option<Key>);
+
+    /// A `BranchOp` made printable.
+    #[derive(Debug, Clone, PartialEq, Eq)]
+    pub enum OpView {
+        Insert(Key, u32),
+        Update(usize, u32),
+        KeepChunk(usize, usize, usize),
+    }
+
+    /// The fields of `BranchGauge`.
+    #[derive(Debug, Clone, PartialEq, Eq)]
+    pub struct GaugeView {
+        pub first_separator: Option<(Key, usize)>,
+        pub prefix_len: usize,
+        pub sum_separator_lengths: usize,
+        pub prefix_compressed: Option<usize>,
+        pub n: usize,
+    }
+
+    /// The private state of the updater: the tracker's ops, gauge and `valid_gauge`, `base.low`, `cutoff`.
+    #[derive(Debug, Clone, PartialEq, Eq)]
+    pub struct StateView {
+        pub ops: Vec<OpView>,
+        pub gauge: GaugeView,
+        pub valid_gauge: bool,
+        pub low: Option<usize>,
+        pub cutoff: Option<Key>,
+    }
+
+    struct Collector {
+        nodes: Vec<Produced>,
+        // fail the k-th call (0-based) of `handle_new_branch` with an I/O error
+        fail_at: Option<usize>,
+    }
+
+    impl HandleNewBranch for Collector {
+        fn handle_new_branch(
+            &mut self,
+            separator: Key,
+            node: BranchNode,
+            cutoff: Option<Key>,
+        ) -> std::io::Result<()> {
+            if self.fail_at == Some(self.nodes.len()) {
+                return Err(std::io::Error::new(
+                    std::io::ErrorKind::Other,
+                    "verif: branch write refused",
+                ));
+            }
+            self.nodes
+                .push((separator, NodeHandle(Arc::new(node)), cutoff));
+            Ok(())
+        }
+    }
+
+    /// What `digest` answered: the nodes handed to `handle_new_branch` in order and `Ok(Some(cutoff))` for
+    /// `NeedsMerge(cutoff)`, `Ok(None)` for `Finished`, `Err(())` for an I/O error of the handler.
+    pub type DigestOutcome = (Vec<Produced>, Result<Option<Key>, ()>);
+
+    pub struct BranchUpdaterSim {
+        updater: BranchUpdater,
+    }
+
+    impl BranchUpdaterSim {
+        fn base(base: Option<&NodeHandle>) -> Option<BaseBranch> {
+            base.map(|h| BaseBranch::new(h.0.clone()))
+        }
+
+        /// `BranchUpdater::new(page_pool, base, cutoff)`
+        pub fn new(base: Option<&NodeHandle>, cutoff: Option<Key>) -> Self {
+            BranchUpdaterSim {
+                updater: BranchUpdater::new(pool().clone(), Self::base(base), cutoff),
+            }
+        }
+
+        /// `reset_base(base, cutoff)`
+        pub fn reset_base(&mut self, base: Option<&NodeHandle>, cutoff: Option<Key>) {
+            self.updater.reset_base(Self::base(base), cutoff);
+        }
+
+        pub fn remove_cutoff(&mut self) {
+            self.updater.remove_cutoff();
+        }
+
+        pub fn is_in_scope(&self, key: &Key) -> bool {
+            self.updater.is_in_scope(key)
+        }
+
+        /// `ingest(key, pn)`
+        pub fn ingest(&mut self, key: Key, pn: Option<u32>) {
+            self.updater.ingest(key, pn.map(PageNumber));
+        }
+
+        /// `digest(new_branches)`; `fail_at = Some(k)`: the handler refuses its k-th node (0-based).
+        pub fn digest(&mut self, fail_at: Option<usize>) -> DigestOutcome {
+            let mut collector = Collector {
+                nodes: Vec::new(),
+                fail_at,
+            };
+            let res = match self.updater.digest(&mut collector) {
+                Ok(DigestResult::NeedsMerge(cutoff)) => Ok(Some(cutoff)),
+                Ok(DigestResult::Finished) => Ok(None),
+                Err(_) => Err(()),
+            };
+            (collector.nodes, res)
+        }
+
+        pub fn state(&self) -> StateView {
+            let (ops, gauge, valid_gauge) = self.updater.ops_tracker.verif_view();
+            StateView {
+                ops: ops
+                    .iter()
+                    .map(|op| match op {
+                        BranchOp::Insert(k, pn) => OpView::Insert(*k, pn.0),
+                        BranchOp::Update(pos, pn) => OpView::Update(*pos, pn.0),
+                        BranchOp::KeepChunk(c) => {
+                            OpView::KeepChunk(c.start, c.end, c.sum_separator_lengths)
+                        }
+                    })
+                    .collect(),
+                gauge: GaugeView {
+                    first_separator: gauge.first_separator,
+                    prefix_len: gauge.prefix_len,
+                    sum_separator_lengths: gauge.sum_separator_lengths,
+                    prefix_compressed: gauge.prefix_compressed,
+                    n: gauge.n,
+                },
+                valid_gauge,
+                low: self.updater.base.as_ref().map(|b| b.low),
+                cutoff: self.updater.cutoff,
+            }
+        }
+    }
+}
